@@ -97,7 +97,8 @@ def gen(g, count, tier):
 
 FLAG_FUZZ = ['', ' ', 'a[', '*bread', 'coffee (black', 'x{2,1}', '\\', '(?i)A', '[[:alpha:]', '(?P<n', 'a|b', '.*', '^$', '\xff', 'tomorrow', 'next week', 'yesterday at 5pm',
              '5 days ago', 'last year', 'in 3 fortnights', '2021/13/45', '99999999999999999999', '-1', '0', 'today', 'last7', '2006-01-02', 'Jan 2 2006', '02 Jan 06 15:04 MST',
-             '%s%d', '../../x', 'a/b', 'NaN', '1e999', 'left-aligned', 'default', 'nosuch', '\n', '--', '-b']
+             '%s%d', '../../x', 'a/b', 'NaN', '1e999', 'left-aligned', 'default', 'nosuch', '\n', '--', '-b',
+             '2021-01-24', '2021.01.24', '2021/02/30', '2021/00/10', '0000/01/01', '2021/01/32']
 
 
 def gen_flags(g, count):
@@ -173,7 +174,7 @@ def run(ctx):
     # ... the same bound arriving through the environment and through the configuration file, and other absurd depths
     cyc = {b'food.yaml': b'a:\n  b: 1\nb:\n  a: 2\n', b'log.yaml': b'2021/01/24:\n  a: 1\n'}
     for path in (['csv', 'database-resolved'], ['reg'], ['bal'], ['report', 'totals']):
-        for depth in (100000000, 10001, -1, 0, 9223372036854775807):
+        for depth in (100000000, 10001, 10000, -1, 0, 9223372036854775807):
             for src in ('flag', 'env', 'cfg'):
                 g_, e_, cfg_ = {}, {}, None
                 if src == 'flag':
